@@ -61,7 +61,7 @@ func ParsePublicKey(it *rc.Item) (crypto.PublicKey, error) {
 	var pub crypto.PublicKey
 	switch enc {
 	case 1: // X509: bstr DER SubjectPublicKeyInfo
-		if body.Kind != rc.Bytes {
+		if body.Kind != rc.Bytes && body.Kind != rc.Text { // the decoder treats byte and text strings alike (value level)
 			return nil, errors.New("public key: x509 body not bstr")
 		}
 		k, err := x509.ParsePKIXPublicKey(body.B)
@@ -70,7 +70,7 @@ func ParsePublicKey(it *rc.Item) (crypto.PublicKey, error) {
 		}
 		pub = k
 	case 2: // X5CHAIN: array of bstr DER certificates
-		if body.Kind != rc.Array || len(body.Items) == 0 || body.Items[0].Kind != rc.Bytes {
+		if body.Kind != rc.Array || len(body.Items) == 0 || (body.Items[0].Kind != rc.Bytes && body.Items[0].Kind != rc.Text) {
 			return nil, errors.New("public key: x5chain body")
 		}
 		c, err := x509.ParseCertificate(body.Items[0].B)
@@ -104,7 +104,8 @@ func ParsePublicKey(it *rc.Item) (crypto.PublicKey, error) {
 			return nil, errors.New("public key: cose curve")
 		}
 		x, y := get(-2), get(-3)
-		if x == nil || y == nil || x.Kind != rc.Bytes || y.Kind != rc.Bytes {
+		str := func(i *rc.Item) bool { return i != nil && (i.Kind == rc.Bytes || i.Kind == rc.Text) }
+		if !str(x) || !str(y) {
 			return nil, errors.New("public key: cose coordinates")
 		}
 		pub = &ecdsa.PublicKey{Curve: curve, X: new(big.Int).SetBytes(x.B), Y: new(big.Int).SetBytes(y.B)}
